@@ -62,6 +62,7 @@ POOL = {
     "struct_lit_single_line": [True, False],
     "normalize_doc_attributes": [True, False],
     "show_parse_errors": [True, False],
+    "skip_macro_invocations": [["*"], ["println"], ["vec"], []],
 }
 # deprecated alias -> (successor, value map)
 ALIASES = {
@@ -76,6 +77,8 @@ COMMON = ["max_width", "tab_spaces", "hard_tabs", "brace_style", "fn_params_layo
 
 
 def toml_value(v):
+    if isinstance(v, list):
+        return "[%s]" % ", ".join(toml_value(x) for x in v)
     if isinstance(v, bool):
         return "true" if v else "false"
     if isinstance(v, int):
@@ -88,6 +91,9 @@ def render(opts):
 
 
 def cli_value(v):
+    if isinstance(v, list):
+        import json
+        return json.dumps(v, separators=(",", ":"))
     if isinstance(v, bool):
         return "true" if v else "false"
     return str(v)
